@@ -607,3 +607,50 @@ def store_eager(ctx: Ctx) -> None:
     cs = repo.calls_to(tz, A.CORE_COMPUTE)
     ok = len(cs) == 1 and any(pol and isinstance(t, ast.Name) and t.id == "compute" for t, pol in facts_at(tcfg, tcfg.node_of(cs[0])))
     ctx.ob(tz, cs[0] if cs else None, ok, "to_zarr computes only `if compute:`", sel="eager:to_zarr")
+
+
+@rule("RECHUNK-GRID-1", props=["C05"], floor=3)
+def rechunk_grid(ctx: Ctx) -> None:
+    """rechunk copies: on the irregular path the storage grid handed to the primitive is
+    split_chunks(shape, copy chunks, target chunks) — chunks that fit into both grids, so every
+    copy task covers whole stored chunks; the copy grid is what tasks are enumerated over"""
+    repo = ctx.repo
+    f = repo.get(f"{A.OPS}._rechunk")
+    fl, cfg = flow_of(repo, f), cfg_of(f)
+    ms = repo.calls_to(f, f"{A.OPS}.map_selection")
+    ctx.need(len(ms) == 1, "_rechunk does not call map_selection once")
+    c = ms[0]
+    tc = kwarg(c, "target_chunks_")
+    ok = False
+    why = "target_chunks_ not passed"
+    if isinstance(tc, ast.Name):
+        sites = fl.rdefs(tc.id, cfg.node_of(c))
+        irregular = [s for s in sites if any(pol and isinstance(t, ast.Name) and t.id == "allow_irregular" for t, pol in facts_at(cfg, s.node))]
+        good = 0
+        for s in irregular:
+            v = s.value
+            base = v
+            # either split_chunks(...) or to_chunksize(<that>) for the regular special case
+            if isinstance(v, ast.Call) and f"{A.UTILS}.to_chunksize" in repo.callee_quals(v, f) and v.args and isinstance(v.args[0], ast.Name):
+                for s2 in fl.rdefs(v.args[0].id, s.node):
+                    base = s2.value
+            if isinstance(base, ast.Call) and f"{A.OPS}.split_chunks" in repo.callee_quals(base, f) and len(base.args) == 3:
+                a = [unparse(x) for x in base.args]
+                if a[0].endswith(".shape") and a[1] == "copy_chunks" and a[2] == f.params[2]:
+                    good += 1
+        ok = bool(irregular) and good == len(irregular)
+        why = f"{good}/{len(irregular)} definitions on the irregular path come from split_chunks(x.shape, copy_chunks, target_chunks)"
+    ctx.ob(f, c, ok, "irregular rechunk: storage chunks = split_chunks(shape, copy_chunks, target_chunks)" + ("" if ok else f" — {why}"), sel="rechunk:storage-grid")
+    # tasks are enumerated over the copy grid: the `chunks` argument of map_selection is the
+    # normalised copy chunks, the same that the selection function slices by
+    chunks_arg = c.args[5] if len(c.args) > 5 else kwarg(c, "chunks")
+    sel = f.children.get("selection_function")
+    ok = chunks_arg is not None and sel is not None and isinstance(chunks_arg, ast.Name) and any(isinstance(n, ast.Call) and f"{A.UTILS}.get_item" in repo.callee_quals(n, sel) and n.args and unparse(n.args[0]) == chunks_arg.id for n in sel.own_nodes())
+    ctx.ob(f, c, ok, "the copy grid that enumerates tasks is the grid the selection function slices the source by", sel="rechunk:copy-grid")
+    sp = repo.get(f"{A.OPS}.split_chunks")
+    ok = any(isinstance(n, (ast.GeneratorExp, ast.ListComp)) and isinstance(n.generators[0].iter, ast.Call) and unparse(n.generators[0].iter.func) == "zip" and len(n.generators[0].iter.args) == 3 and not n.generators[0].ifs for n in sp.own_nodes())
+    ctx.ob(sp, None, ok, "split_chunks treats every axis (zip over shape, source and target chunks, no filter)", sel="rechunk:all-axes")
+    sc = repo.get(f"{A.OPS}.split_chunksizes")
+    calls = [unparse(n.func) for n in ast.walk(sc.node) if isinstance(n, ast.Call)]
+    ok = "np.union1d" in calls and calls.count("np.arange") >= 2 and "np.diff" in calls
+    ctx.ob(sc, None, ok, "split_chunksizes = differences of the union of both grids' boundaries", sel="rechunk:union-of-boundaries")
